@@ -222,6 +222,34 @@ def run(ctx):
     recs.append(dict(inp=inp, w=wv, kind='metric'))
     ctx.seen((name, repr(sorted(opt.items()))), n_active > 0)
     ctx.sample(dict(estimator=name, params=opt, n_active=n_active, best_w=wv[:6].tolist()), limit=4)
+  # ---- 'lda' bases with very few elements (fewer than classes - 1: the library only warns): still n_basis unit-norm rows
+  from metric_learn import SCML_Supervised as _SS
+  rl = np.random.default_rng(ctx.seed + 51)
+  Xl = fits.grid(rl.standard_normal((100, 5)) + np.repeat(np.eye(5) * 3, 20, axis=0), 6)
+  yl = np.repeat(np.arange(5), 20)
+  for nb in ((2, 3, 4, 7) if thorough else (2, 3)):
+    ctx.count('lda_small_n_basis', 1)
+    got = {}
+    orig_fit = _SS._fit
+    def spy_fit(self, triplets, basis=None, n_basis=None):
+      got['basis'] = None if basis is None else np.array(basis)
+      return orig_fit(self, triplets, basis, n_basis)
+    try:
+      _SS._fit = spy_fit
+      with warnings.catch_warnings():
+        warnings.simplefilter('ignore')
+        _SS(basis='lda', n_basis=nb, k_genuine=2, k_impostor=2, max_iter=20, output_iter=10, random_state=1).fit(Xl, yl)
+    except Exception as ex:
+      ctx.fail_input('basis_unit_rows', "SCML_Supervised(basis='lda', n_basis=%d) on 5 classes raises %s" % (nb, type(ex).__name__),
+                     dict(n_basis=nb, n_classes=5, n_features=5, X='grid(default_rng(VERIF_SEED + 51).standard_normal((100, 5)) + 3 * class axis, 6)'),
+                     observed=str(ex)[:200])
+      continue
+    finally:
+      _SS._fit = orig_fit
+    Bz = got.get('basis')
+    if Bz is None or Bz.shape != (nb, 5) or np.abs(np.sum(Bz ** 2, axis=1) - 1).max() > 1e-9:
+      ctx.fail_input('basis_unit_rows', "generated 'lda' basis does not have n_basis = %d unit-norm rows" % nb, dict(n_basis=nb),
+                     observed=None if Bz is None else list(Bz.shape))
   # ---- a basis supplied as an array of integer type holds the same numbers as its float copy: same weights, same metric
   from metric_learn import SCML as _SCML
   for i in range(12 if thorough else 4):
